@@ -47,6 +47,9 @@ fn harvest_or_fail(report: &mut Report) -> harvest::Harvest {
 
 fn run_sweep(id: &str, mode: Mode, tier: Tier, rule: &str) -> i32 {
     let mut report = Report::new(id, tier, "exploration");
+    if mode == Mode::C03 {
+        crate::small::c03_primitive(tier, &mut report);
+    }
     let h = harvest_or_fail(&mut report);
     let unknown = crate::frontends::unknown_language_ids();
     if !unknown.is_empty() {
@@ -105,6 +108,30 @@ pub fn run(id: &str, tier: Tier) -> i32 {
             tier,
             "same enumeration as C01/C02; every lint (first pass and chunk-cache pass of a long-lived all-rules LintGroup) checked for span bounds and every suggestion against a reference splice; non-trivial = produced >= 1 lint",
         ),
+        "C13" => {
+            let mut r = Report::new("C13", tier, "exploration");
+            r.set("rule", "all lists of <= K tagged lints with spans over positions 0..=P (zero-width, nested, touching, equal) through harper_core::remove_overlaps, plus the real all-rules lint lists of every prefix of every harvested seed sentence; oracle: sub-list, pairwise character-disjoint, every dropped lint starts inside a kept one, one-pass back-to-front fix == reference; non-trivial = at least one lint was removed");
+            crate::small::c13(tier, &mut r);
+            r.set("exhaustive", true);
+            r.assume("span positions <= P and list length <= K for the synthetic part");
+            r.finish()
+        }
+        "C17" => {
+            let mut r = Report::new("C17", tier, "exploration");
+            r.set("rule", "every integer below the tier bound, plus every three-digit ending behind prefixes of every digit length up to 2^53-1, x 4 suffixes x 4 letter-case variants x sentence frames, only CorrectNumberSuffix enabled; oracle: English ordinal rule on the decimal string; non-trivial = the written suffix is wrong (a lint is due)");
+            crate::small::c17(tier, &mut r);
+            r.set("exhaustive", true);
+            r.assume("numbers between the exhaustive range and 2^53 are covered only through the structured family (all endings 000-999 behind ~40 prefixes)");
+            r.finish()
+        }
+        "C18" => {
+            let mut r = Report::new("C18", tier, "exploration");
+            r.set("rule", "all sequences of <= L tokens from a 20-token alphabet (articles, prepositions, proper nouns with odd capitalisation, curly apostrophes, non-ASCII, hyphenated, numbers, punctuation) plus every harvested single-line seed; oracle: same length, only case (or proper-noun apostrophe) changes, first word capitalised, idempotent; non-trivial = output differs from input");
+            crate::small::c18(tier, &mut r);
+            r.set("exhaustive", true);
+            r.assume("token alphabet and sequence length bound");
+            r.finish()
+        }
         _ => {
             eprintln!("unknown property {id}");
             2
